@@ -332,3 +332,210 @@ def judge(obs, props=None):
         except Exception as e:
             out.append((p, 'oracle error: %r' % (e,)))
     return out
+
+
+# ------------------------------------------------------------------------------------------ C06: composites preserve attribution
+def char_attr(s, text):
+    """attribution of every character of `text` by stream s (columns=true, normal mode): list of
+    (file, content, ol, oc, name, chunk_start_index) | None, following chunk order (chunks reassemble to text)"""
+    _, srcs, names = tables_of(s['events'])
+    out = []
+    for e in chunks_of(s['events']):
+        o = e[4]
+        start = len(out)
+        if o is None: a = None
+        else:
+            sn = srcs.get(o[0], ('?%d' % o[0], None))
+            a = (sn[0], sn[1], o[1], o[2], None if o[3] is None else names.get(o[3], '?%d' % o[3]))
+        for _ in (e[1] or ''): out.append(None if a is None else a + (start,))
+    return out
+
+
+def content_matches(content, ol, oc, piece):
+    """does line `ol` (1-based) of the recorded original content contain `piece` at column oc"""
+    if content is None or ol < 1: return False
+    lines = content.split('\n')
+    # lines keep their terminators in the crate's split; compare on the line text including '\n'
+    ls, cur = [], ''
+    for ch in content:
+        cur += ch
+        if ch == '\n': ls.append(cur); cur = ''
+    if cur: ls.append(cur)
+    if ol - 1 >= len(ls): return False
+    return ls[ol - 1][oc:].startswith(piece) if oc <= len(ls[ol - 1]) else piece == ''
+
+
+def c06(obs):
+    v = []
+    tree = obs.get('tree'); subs = obs.get('subs') or {}
+    if tree is None: return v
+    outer = obs['streams'].get('c1f0')
+    if outer is None: return v
+    src = obs['source']
+    oa = char_attr(outer, src)
+    if len(oa) != len(src): return v          # C01 territory
+    if tree['kind'] in ('concat', 'concat_add'):
+        off = 0
+        for k, ch in enumerate(tree['children']):
+            sub = subs.get('child%d' % k)
+            if sub is None: return v
+            ct = sub['source']
+            ca = char_attr(sub['streams']['c1f0'], ct)
+            for i in range(len(ct)):
+                a, b = ca[i], oa[off + i]
+                if (None if a is None else a[:5]) != (None if b is None else b[:5]):
+                    v.append(('C06', 'ConcatSource: character %d of child %d is attributed to %r by the child alone but to %r inside the concatenation' % (i, k, a and a[:5], b and b[:5]))); return v
+            off += len(ct)
+    elif tree['kind'] == 'replace':
+        sub = subs.get('inner')
+        if sub is None: return v
+        it = sub['source']
+        ia = char_attr(sub['streams']['c1f0'], it)
+        exp = replace_reference(tree, it, ia)
+        if exp is None or len(exp) != len(oa): return v
+        for i, (e, g) in enumerate(zip(exp, oa)):
+            gg = None if g is None else g[:5]
+            if e == 'any': continue
+            if e != gg and not (e is not None and gg is not None and e[:4] == gg[:4] and e[4] == '*'):
+                v.append(('C06', 'ReplaceSource: output character %d (%r) should be attributed to %r but the stream says %r' % (i, src[i], e, gg))); return v
+    return v
+
+
+def replace_reference(tree, it, ia):
+    """expected attribution (file, content, ol, oc, name) | None per OUTPUT character of a ReplaceSource, from the inner
+    text `it`, the inner per-character attribution `ia` and the replacement list - an independent re-statement of C06"""
+    n = len(it)
+    reps = sorted(enumerate(tree['replacements']), key=lambda t: (t[1]['start'], t[1]['end'], t[1].get('enforce', 1), t[0]))
+    out = []
+    pos = 0                        # consumed inner text up to here
+    cur_col = None
+    def advance(a, piece):
+        nonlocal cur_col
+        if a is not None and piece and content_matches(a[1], a[2], cur_col, piece): cur_col += len(piece)
+    def emit_inner(a_, b_):
+        """inner text [a_, b_) survives: per inner chunk, piecewise"""
+        p = a_
+        while p < b_:
+            st = chunk_start(ia, it, p); en = chunk_end(ia, it, p)
+            enter_at(st, p)
+            q = min(b_, en)
+            a = ia[p]
+            for _ in range(p, q): out.append(None if a is None else (a[0], a[1], a[2], cur_col, a[4]))
+            advance(a, it[p:q])
+            p = q
+    def skip_inner(a_, b_):
+        p = a_
+        while p < b_:
+            st = chunk_start(ia, it, p); en = chunk_end(ia, it, p)
+            enter_at(st, p)
+            q = min(b_, en)
+            advance(ia[p], it[p:q])
+            p = q
+    track = {'chunk': None}
+    def enter_at(st, p):
+        nonlocal cur_col
+        if track['chunk'] != st:
+            track['chunk'] = st
+            cur_col = None if ia[st] is None else ia[st][3]
+            if p > st:      # we arrive in the middle of a chunk whose head was consumed by an earlier replacement range
+                advance(ia[st], it[st:p])
+    for _, r in reps:
+        s = min(r['start'], n); e = min(r['end'], n)
+        if s > pos:
+            emit_inner(pos, s); pos = s
+        # replacement content
+        if s < n and r['start'] < n:
+            st = chunk_start(ia, it, max(pos, s) if max(pos, s) < n else n - 1)
+            p = max(pos, s)
+            if p < n:
+                enter_at(chunk_start(ia, it, p), p)
+                a = ia[p]
+            else: a = None
+        else: a = None
+        first = True
+        for ln in split_lines(r['content']):
+            for _ in ln:
+                if a is None: out.append(None)
+                else:
+                    nm = (r.get('name') if r.get('name') is not None else a[4]) if first else None
+                    out.append((a[0], a[1], a[2], cur_col, nm))
+            first = False
+        if e > pos:
+            skip_inner(pos, e); pos = e
+    if pos < n: emit_inner(pos, n)
+    return out
+
+
+def split_lines(t):
+    ls, cur = [], ''
+    for ch in t:
+        cur += ch
+        if ch == '\n': ls.append(cur); cur = ''
+    if cur: ls.append(cur)
+    return ls
+
+
+def chunk_start(ia, it, p):
+    a = ia[p]
+    if a is not None: return a[5]
+    q = p
+    while q > 0 and ia[q - 1] is None and it[q - 1] != '\n': q -= 1
+    return q
+
+
+def chunk_end(ia, it, p):
+    a = ia[p]
+    q = p + 1
+    if a is not None:
+        while q < len(ia) and ia[q] is not None and ia[q][5] == a[5]: q += 1
+        return q
+    while q < len(ia) and ia[q] is None and it[q - 1] != '\n': q += 1
+    return q
+
+
+def c05(obs):
+    tree = obs.get('tree')
+    if tree is None or not has_kind(tree, ('replace',)) or has_kind(tree, ('sms',)): return []
+    ref = provenance(tree)[0]
+    v = []
+    if obs.get('source') is not None and obs['source'] != ref:
+        v.append(('C05', 'source() is %r but the reference replacement model gives %r' % (obs['source'], ref)))
+    for k, val in (obs.get('views') or {}).items():
+        if val != ref: v.append(('C05', '%s is %r but the reference replacement model gives %r' % (k, val, ref)))
+    return v
+
+
+def attribution_table(o):
+    """per character attribution through map c1 (names resolved), per line through map c0, and through the streams"""
+    src = o['source']; pos, end = positions(src)
+    out = {}
+    if 'c1' in o['maps']:
+        ms = map_segs(o['maps']['c1']); out['map1'] = [lookup(ms, l, c) for (l, c) in pos]
+    if 'c0' in o['maps']:
+        ms = map_segs(o['maps']['c0'])
+        out['map0'] = [next(((x[2][0], x[2][1]) for x in ms if x[0] == l and x[2] is not None), None) for l in range(1, end[0] + 1)]
+    if 'c1f0' in o['streams']:
+        st = stream_attr(o['streams']['c1f0']); out['stream1'] = [lookup(st, l, c) for (l, c) in pos]
+    return out
+
+
+def c13(obs):
+    alt = obs.get('alt')
+    if alt is None: return []
+    v = []
+    if alt.get('source') != obs.get('source'):
+        return [('C13', 'text differs from the equivalent composition: %r vs %r (%s)' % (obs.get('source'), alt.get('source'), obs.get('alt_kind')))]
+    a, b = attribution_table(obs), attribution_table(alt)
+    for k in a:
+        if k in b and a[k] != b[k]:
+            i = next(i for i, (x, y) in enumerate(zip(a[k], b[k])) if x != y)
+            v.append(('C13', '%s: position/line #%d is attributed to %r here but to %r by the equivalent composition (%s)' % (k, i, a[k][i], b[k][i], obs.get('alt_kind'))))
+    for k in ('c1f0', 'c0f0', 'c1f1', 'c0f1'):
+        if k in obs['streams'] and k in alt['streams'] and obs['streams'][k]['end'] != alt['streams'][k]['end']:
+            v.append(('C13', '%s: end info %r vs %r in the equivalent composition' % (k, obs['streams'][k]['end'], alt['streams'][k]['end'])))
+    return v
+
+
+ALL['C05'] = c05
+ALL['C13'] = c13
+ALL['C06'] = c06
